@@ -4,9 +4,12 @@ package main
 
 import (
 	"bytes"
+	"context"
 	"encoding/json"
 	"fmt"
+	"io"
 	"strings"
+	"sync"
 	"sync/atomic"
 	"time"
 
@@ -296,6 +299,143 @@ func runC03Case(r *ev.Run, c c03Case) c03Dry {
 	return dry
 }
 
+// c03ConcCase: two goroutines call Send on one established connection; the second call starts while the first one is
+// inside its DATA phase (the first message's body producer waits for it).
+type c03ConcCase struct {
+	Rep       int    `json:"rep"`
+	Lines     int    `json:"body_lines"`
+	NoNoop    bool   `json:"without_noop,omitempty"`
+	SecondVia string `json:"second_call"` // send (Reset racing with a Send is outside the property: RSET aborts a transaction by definition)
+}
+
+func runC03Concurrent(r *ev.Run, c c03ConcCase) {
+	viol := func(key, what string, obs any) {
+		r.Violate(ev.Violation{Key: key, What: what, Case: c, Observed: obs})
+	}
+	farm := &refsmtp.Farm{NewConfig: func(int) *refsmtp.Config { return &refsmtp.Config{AllowUTF8: true} }}
+	defer farm.Shutdown()
+	opts := []mail.Option{mail.WithDialContextFunc(farm.Dial), mail.WithTimeout(defaultNetTimeout), mail.WithHELO("client.verif.example"), mail.WithTLSPolicy(mail.NoTLS)}
+	if c.NoNoop {
+		opts = append(opts, mail.WithoutNoop())
+	}
+	cl, err := mail.NewClient(netHost, opts...)
+	if err != nil {
+		r.HarnessError("C03 concurrent NewClient: " + err.Error())
+		return
+	}
+	var armed int32 = 1
+	inData := make(chan struct{})
+	secondStarted := make(chan struct{})
+	var once sync.Once
+	body := strings.Repeat("a line of the first message, which is sent by goroutine one\r\n", c.Lines)
+	m1, _ := simpleMsg("c03c-0", "m0@sender.example", []string{"r0m0@rcpt.example"}, "quoted-printable", "x")
+	m1.SetBodyWriter(mail.TypeTextPlain, func(w io.Writer) (int64, error) {
+		half := len(body) / 2
+		n1, err := io.WriteString(w, body[:half])
+		if err != nil {
+			return int64(n1), err
+		}
+		if atomic.LoadInt32(&armed) == 1 {
+			once.Do(func() { close(inData) })
+			select {
+			case <-secondStarted:
+				time.Sleep(30 * time.Millisecond) // let the second call reach whatever it does first
+			case <-time.After(2 * time.Second):
+			}
+		}
+		n2, err := io.WriteString(w, body[half:])
+		return int64(n1 + n2), err
+	})
+	m2, _ := simpleMsg("c03c-1", "m1@sender.example", []string{"r0m1@rcpt.example"}, "quoted-printable", "the second message\r\n")
+	ctx, cancel := context.WithTimeout(context.Background(), 10*time.Second)
+	defer cancel()
+	if err := cl.DialWithContext(ctx); err != nil {
+		r.HarnessError("C03 concurrent dial: " + err.Error())
+		return
+	}
+	var wg sync.WaitGroup
+	var err1, err2 error
+	wg.Add(2)
+	go func() { defer wg.Done(); err1 = cl.Send(m1) }()
+	go func() {
+		defer wg.Done()
+		select {
+		case <-inData:
+		case <-time.After(3 * time.Second):
+		}
+		close(secondStarted)
+		switch c.SecondVia {
+		case "reset":
+			err2 = cl.Reset()
+		default:
+			err2 = cl.Send(m2)
+		}
+	}()
+	hung, _ := withWatchdog(20*time.Second, wg.Wait, func() { farm.Shutdown() })
+	atomic.StoreInt32(&armed, 0)
+	if hung {
+		r.Inconclusive("C03 concurrent sends hung")
+		return
+	}
+	_ = cl.Close()
+	farm.Shutdown()
+	r.Count("concurrent_send_pairs", 1)
+	msgs := []*mail.Msg{m1, m2}
+	exp := make([][]byte, 2)
+	for i, m := range msgs {
+		var b bytes.Buffer
+		if _, err := m.WriteTo(&b); err != nil {
+			r.HarnessError("C03 concurrent render: " + err.Error())
+			return
+		}
+		e := b.Bytes()
+		if !bytes.HasSuffix(e, []byte("\r\n")) {
+			e = append(e, '\r', '\n')
+		}
+		exp[i] = e
+	}
+	committed := make([]int, 2)
+	sess, _ := farm.Snapshot()
+	for _, s := range sess {
+		_, commits, pv := s.Snapshot()
+		for _, v := range pv {
+			if strings.HasPrefix(v, "syntax") {
+				continue
+			}
+			viol("concurrent:protocol:"+strings.SplitN(v, ":", 2)[0], "two overlapping calls on one connection: the reference server automaton reports "+v, s.Transcript())
+		}
+		for _, cm := range commits {
+			if !cm.Complete || !cm.Accepted {
+				continue
+			}
+			r.Count("commits_accepted", 1)
+			which := -1
+			for i := range exp {
+				if bytes.Equal(cm.Data, exp[i]) {
+					which = i
+				}
+			}
+			if which < 0 {
+				viol("concurrent:committed-incomplete", fmt.Sprintf("two overlapping calls on one connection: the server accepted %d bytes that are not the complete rendering of either message", len(cm.Data)), map[string]any{"committed": ev.Q(cm.Data, 500), "transcript": s.Transcript()})
+				continue
+			}
+			committed[which]++
+		}
+	}
+	for i, m := range msgs {
+		if i == 1 && c.SecondVia == "reset" {
+			continue
+		}
+		if committed[i] > 1 {
+			viol("concurrent:committed-twice", fmt.Sprintf("message %d committed %d times", i, committed[i]), nil)
+		}
+		if m.IsDelivered() != (committed[i] >= 1) {
+			viol(fmt.Sprintf("concurrent:isdelivered-lies:%t-vs-committed-%t", m.IsDelivered(), committed[i] >= 1), fmt.Sprintf("message %d: IsDelivered()=%t, complete commits %d (errors: %v / %v)", i, m.IsDelivered(), committed[i], err1, err2), sess[0].Transcript())
+		}
+	}
+	r.Eval(fmt.Sprintf("concurrent|%+v", c), true)
+}
+
 func c03Spec(r *ev.Run, stream string, idx, mi int) gen.MsgSpec {
 	rng := r.Rng(stream, idx*10+mi)
 	np := gen.Pick(rng, []int{1, 1, 2})
@@ -316,7 +456,7 @@ func c03Spec(r *ev.Run, stream string, idx, mi int) gen.MsgSpec {
 
 func runC03(r *ev.Run, rep *ev.ReplayDoc) ev.Summary {
 	sum := ev.Summary{
-		Rule: "batches of 1-3 seeded messages (C01 shapes, canonical CRLF) sent through Send / DialAndSend / SendWithSMTPClient under single faults enumerated per batch: every content producer failing before/inside/after its data; the transport failing writes at offsets of every class inside each message's DATA phase (first byte, header block, every boundary line, part bodies, closing boundary, terminating dot) taken from a dry run; every reply class {4yz,5yz,drop} at every command position; plus fault pairs (producer x reply, transport x reply) for small batches; every transport fault, every producer fault inside or after its data and the 4yz/drop replies at DATA / end-of-data / RSET are also run with a retry (the undelivered *Msg values are sent again by a new call over a healthy connection: each must be committed once, complete). Oracle compares the reference server's commit log with the complete renderings. non-trivial = a fault was injected; distinct by (batch, fault)",
+		Rule: "batches of 1-3 seeded messages (C01 shapes, canonical CRLF) sent through Send / DialAndSend / SendWithSMTPClient under single faults enumerated per batch: every content producer failing before/inside/after its data; the transport failing writes at offsets of every class inside each message's DATA phase (first byte, header block, every boundary line, part bodies, closing boundary, terminating dot) taken from a dry run; every reply class {4yz,5yz,drop} at every command position; plus fault pairs (producer x reply, transport x reply) for small batches; every transport fault, every producer fault inside or after its data and the 4yz/drop replies at DATA / end-of-data / RSET are also run with a retry (the undelivered *Msg values are sent again by a new call over a healthy connection: each must be committed once, complete). Also pairs of overlapping calls on one established connection (the second Send starts while the first call is inside its DATA phase). Oracle compares the reference server's commit log with the complete renderings. non-trivial = a fault was injected; distinct by (batch, fault)",
 		Assumptions: []string{
 			"expected renderings are produced by the harness after the call with all producer faults disarmed (rendering is repeatable, C11)",
 			"what counts as committed is what the reference server received between 354 and CRLF.CRLF and acknowledged with 2yz",
@@ -325,6 +465,11 @@ func runC03(r *ev.Run, rep *ev.ReplayDoc) ev.Summary {
 		Exhaustive: false, // reply positions and producers are enumerated completely, transport offsets by class + stride
 	}
 	if rep != nil {
+		var k c03ConcCase
+		if err := json.Unmarshal(rep.Case, &k); err == nil && k.Lines > 0 {
+			runC03Concurrent(r, k)
+			return sum
+		}
 		var c c03Case
 		if err := json.Unmarshal(rep.Case, &c); err != nil {
 			r.HarnessError("bad replay case: " + err.Error())
@@ -482,6 +627,12 @@ func runC03(r *ev.Run, rep *ev.ReplayDoc) ev.Summary {
 			r.Sample(map[string]any{"batch": len(c.Specs), "via": c.Via, "fault_class": c.FailClass, "script": scriptString(c.Script), "write_fail_at": c.WriteFail})
 		}
 	})
+	// overlapping calls on one connection
+	var cc []c03ConcCase
+	for rep := 0; rep < r.Pick(12, 120); rep++ {
+		cc = append(cc, c03ConcCase{Rep: rep, Lines: []int{40, 400, 3000}[rep%3], NoNoop: rep%4 == 3, SecondVia: "send"})
+	}
+	r.ParallelN(4, len(cc), func(i int) { runC03Concurrent(r, cc[i]) })
 	r.CollectRaceLogs()
 	return sum
 }
